@@ -19,3 +19,4 @@ mod table;
 mod mutc;
 mod esc_native;
 mod purity;
+mod oracle_native;
